@@ -156,7 +156,7 @@ func (p *Parser) parseInsertStatement() (ast.Statement, error) {
 
 	// Parse RETURNING clause if present (PostgreSQL)
 	var returning []ast.Expression
-	if p.isType(models.TokenTypeReturning) || p.currentToken.Literal == "RETURNING" {
+	if p.isType(models.TokenTypeReturning) || strings.EqualFold(p.currentToken.Literal, "RETURNING") {
 		p.advance() // Consume RETURNING
 		var err error
 		returning, err = p.parseReturningColumns()
@@ -267,7 +267,7 @@ func (p *Parser) parseUpdateStatement() (ast.Statement, error) {
 
 	// Parse RETURNING clause if present (PostgreSQL)
 	var returning []ast.Expression
-	if p.isType(models.TokenTypeReturning) || p.currentToken.Literal == "RETURNING" {
+	if p.isType(models.TokenTypeReturning) || strings.EqualFold(p.currentToken.Literal, "RETURNING") {
 		p.advance() // Consume RETURNING
 		var err error
 		returning, err = p.parseReturningColumns()
@@ -322,7 +322,7 @@ func (p *Parser) parseDeleteStatement() (ast.Statement, error) {
 
 	// Parse RETURNING clause if present (PostgreSQL)
 	var returning []ast.Expression
-	if p.isType(models.TokenTypeReturning) || p.currentToken.Literal == "RETURNING" {
+	if p.isType(models.TokenTypeReturning) || strings.EqualFold(p.currentToken.Literal, "RETURNING") {
 		p.advance() // Consume RETURNING
 		var err error
 		returning, err = p.parseReturningColumns()
@@ -368,13 +368,13 @@ func (p *Parser) parseMergeStatement() (ast.Statement, error) {
 		}
 		stmt.TargetAlias = p.currentToken.Literal
 		p.advance()
-	} else if p.canBeAlias() && !p.isType(models.TokenTypeUsing) && p.currentToken.Literal != "USING" {
+	} else if p.canBeAlias() && !p.isType(models.TokenTypeUsing) && !strings.EqualFold(p.currentToken.Literal, "USING") {
 		stmt.TargetAlias = p.currentToken.Literal
 		p.advance()
 	}
 
 	// Parse USING
-	if !p.isType(models.TokenTypeUsing) && p.currentToken.Literal != "USING" {
+	if !p.isType(models.TokenTypeUsing) && !strings.EqualFold(p.currentToken.Literal, "USING") {
 		return nil, p.expectedError("USING")
 	}
 	p.advance() // Consume USING
@@ -394,7 +394,7 @@ func (p *Parser) parseMergeStatement() (ast.Statement, error) {
 		}
 		stmt.SourceAlias = p.currentToken.Literal
 		p.advance()
-	} else if p.canBeAlias() && !p.isType(models.TokenTypeOn) && p.currentToken.Literal != "ON" {
+	} else if p.canBeAlias() && !p.isType(models.TokenTypeOn) && !strings.EqualFold(p.currentToken.Literal, "ON") {
 		stmt.SourceAlias = p.currentToken.Literal
 		p.advance()
 	}
@@ -434,12 +434,12 @@ func (p *Parser) parseMergeWhenClause() (*ast.MergeWhenClause, error) {
 	p.advance() // Consume WHEN
 
 	// Determine clause type: MATCHED, NOT MATCHED, NOT MATCHED BY SOURCE
-	if p.isType(models.TokenTypeMatched) || p.currentToken.Literal == "MATCHED" {
+	if p.isType(models.TokenTypeMatched) || strings.EqualFold(p.currentToken.Literal, "MATCHED") {
 		clause.Type = "MATCHED"
 		p.advance() // Consume MATCHED
 	} else if p.isType(models.TokenTypeNot) {
 		p.advance() // Consume NOT
-		if !p.isType(models.TokenTypeMatched) && p.currentToken.Literal != "MATCHED" {
+		if !p.isType(models.TokenTypeMatched) && !strings.EqualFold(p.currentToken.Literal, "MATCHED") {
 			return nil, p.expectedError("MATCHED after NOT")
 		}
 		p.advance() // Consume MATCHED
@@ -447,7 +447,7 @@ func (p *Parser) parseMergeWhenClause() (*ast.MergeWhenClause, error) {
 		// Check for BY SOURCE
 		if p.isType(models.TokenTypeBy) {
 			p.advance() // Consume BY
-			if !p.isType(models.TokenTypeSource) && p.currentToken.Literal != "SOURCE" {
+			if !p.isType(models.TokenTypeSource) && !strings.EqualFold(p.currentToken.Literal, "SOURCE") {
 				return nil, p.expectedError("SOURCE after BY")
 			}
 			p.advance() // Consume SOURCE
@@ -670,7 +670,7 @@ func (p *Parser) parseOnConflictClause() (*ast.OnConflict, error) {
 		}
 		p.advance() // Consume )
 		onConflict.Target = targets
-	} else if p.isType(models.TokenTypeOn) && p.peekToken().Literal == "CONSTRAINT" {
+	} else if p.isType(models.TokenTypeOn) && strings.EqualFold(p.peekToken().Literal, "CONSTRAINT") {
 		// ON CONSTRAINT constraint_name
 		p.advance() // Consume ON
 		p.advance() // Consume CONSTRAINT
@@ -682,13 +682,13 @@ func (p *Parser) parseOnConflictClause() (*ast.OnConflict, error) {
 	}
 
 	// Parse DO keyword
-	if p.currentToken.Literal != "DO" {
+	if !strings.EqualFold(p.currentToken.Literal, "DO") {
 		return nil, p.expectedError("DO")
 	}
 	p.advance() // Consume DO
 
 	// Parse action: NOTHING or UPDATE
-	if p.currentToken.Literal == "NOTHING" {
+	if strings.EqualFold(p.currentToken.Literal, "NOTHING") {
 		onConflict.Action = ast.OnConflictAction{DoNothing: true}
 		p.advance() // Consume NOTHING
 	} else if p.isType(models.TokenTypeUpdate) {
